@@ -277,8 +277,11 @@ def main(argv):
                 pv['mirrors'] = [m for m in pv['mirrors'] if m not in P.HEAVY_HARNESSES]
         mirror_needed = sorted(set(m for pv in pending for m in pv['mirrors']))
         kres_by = {}
-        if (kh and not undecided) or mirror_needed:
-            want = sorted(set((kh if not undecided else []) + mirror_needed))
+        # the property's own harnesses run even when a Verus unit is undecided (lost anchor, unsupported construct):
+        # a harness that FAILS on the real code is conclusive on its own, a harness that passes leaves the run undecided
+        verus_undecided = list(undecided)
+        if kh or mirror_needed:
+            want = sorted(set(kh + mirror_needed))
             try:
                 for h in kx.run_harnesses(want, tier):
                     kres_by[h['name']] = h
@@ -320,7 +323,7 @@ def main(argv):
                         pv['message'] += ' || Kani mirror(s) inconclusive: %s' % [(m['name'], m['status']) for m in ms]
                     violations.append(pv)
         # (2) the property's own harnesses
-        for hn in (kh if not undecided else []):
+        for hn in kh:
             h = kres_by.get(hn)
             if h is None:
                 undecided.append('kani harness %s produced no result' % hn)
